@@ -9,7 +9,7 @@ Record obs := mkObs {
   o_ret  : list Z;          (* numbers returned by a maintenance call *)
   o_thr  : list (Z * Z);    (* per goroutine: (0,v) returned v | (1,_) returned the loader's error |
                                (2,_) panicked | (10,_) parked inside its loader | (11,_) blocked in wg.Wait |
-                               (12,_) parked between save's unlock and its gen.size.Add *)
+                               (12,_) parked at the schedule point after save's unlock *)
   o_acct : Z;               (* Cleaner.getSize() *)
   o_live : Z;               (* sum of entry sizes over the payloads of all caches *)
   o_bk   : list nat         (* Cleaner.buckets as cache ids *)
@@ -153,16 +153,15 @@ Fixpoint spec_run (strict : bool) (lim : Z) (cl : list call) (evs : list ev) (im
       let seen' := seen ++ in_loader_from (o_thr o) 0%nat in
       (* coherence *)
       Nat.eqb (length (o_thr o)) ncall' && thrs_ok cl seen' 0%nat (o_thr o) &&
-      (* accounting: the size the cleaner accounts = sum of live entries (unless a saver is parked between
-         its unlock and its Add: then the two differ by the pending Adds) *)
-      (negb strict || existsb (fun x => fst x =? 12) (o_thr o) || (o_acct o =? o_live o)) &&
+      (* accounting: the size the cleaner accounts = sum of live entries (also while savers are parked at
+         the schedule point after save's unlock, and while creators are inside their loaders) *)
+      (negb strict || (o_acct o =? o_live o)) &&
       (* every cache that was not released is under the cleaner's management *)
       forallb (fun c => memb c rel' || memb c (o_bk o)) (seq 0 ncache') && nodupb (o_bk o) &&
       forallb (fun c => Nat.ltb c ncache') (o_bk o) &&
       (* a cleaning pass brings the accounted (= live) size under the limit *)
       match e, o_ret o with
-      | ECleanup, 1 :: _ => (o_acct o <=? lim) &&
-                            (negb strict || existsb (fun x => fst x =? 12) (o_thr o) || (o_live o <=? lim))
+      | ECleanup, 1 :: _ => (o_acct o <=? lim) && (negb strict || (o_live o <=? lim))
       | _, _ => true
       end &&
       spec_run strict lim cl er ir ncache' ncall' rel' seen'
